@@ -606,7 +606,7 @@ theorem natSum_eq_sum (l : List Nat) : natSum l = l.sum := by
 
 variable {α : Type} [Field α]
 
-theorem cast_natSum (l : List Nat) : ((natSum l : Nat) : α) = (l.map (fun c => (c : α))).sum := by
+theorem cast_natSum (l : List Nat) : ((natSum l : Nat) : α) = (l.map (fun (c : Nat) => (c : α))).sum := by
   induction l with
   | nil => simp [natSum]
   | cons x xs ih =>
@@ -615,14 +615,14 @@ theorem cast_natSum (l : List Nat) : ((natSum l : Nat) : α) = (l.map (fun c => 
     simp
 
 theorem sum_map_div (l : List Nat) (s : α) :
-    (l.map (fun c => (c : α) / s)).sum = (l.map (fun c => (c : α))).sum / s := by
+    (l.map (fun (c : Nat) => (c : α) / s)).sum = (l.map (fun (c : Nat) => (c : α))).sum / s := by
   induction l with
   | nil => simp
   | cons x xs ih => simp [ih, add_div]
 
 /-- a row of counts divided by its (non-zero) sum adds up to one. -/
 theorem normalised_row_sum [CharZero α] (l : List Nat) (h : natSum l ≠ 0) :
-    (l.map (fun c => (c : α) / ((natSum l : Nat) : α))).sum = 1 := by
+    (l.map (fun (c : Nat) => (c : α) / ((natSum l : Nat) : α))).sum = 1 := by
   rw [sum_map_div, ← cast_natSum]
   exact div_self (by exact_mod_cast h)
 
